@@ -229,6 +229,7 @@ def run(ctx):
                 ctx.oracle_fail("integrate is not linear at index %d: %r vs %r" % (j, iz[j], a * ix[j] + b * iy[j]), rep)
                 break
 
+ANCHORS = ["src/ocean_science_utilities/tools/time_integration.py"]
 READY = True
 LEVEL_TEXT = ("Theorems (Coq, all orders 1..8 x implicit points, all signal lengths/time vectors): stencil weights sum to one, "
               "are exact on every polynomial of degree < order and equal the exact integrals of the Lagrange basis polynomials "
